@@ -513,7 +513,13 @@ fn queue_main(plan: &Value, slot: Arc<Mutex<Option<QueueRun>>>) {
             match end.as_str() {
                 "drop" => {
                     hist.log(K::DropHandleBegin);
+                    let me = detsim::current_tid().unwrap_or(0);
+                    let b0 = detsim::blocked_count(me);
                     drop(j);
+                    // how long the drop *waited* (from the moment this thread blocked in it - by then the shutdown
+                    // has been signalled, whatever the scheduler did to this thread before - until it returned)
+                    let waited = if detsim::blocked_count(me) > b0 { detsim::clock_ns().saturating_sub(detsim::last_block_clock_ns(me)) } else { 0 };
+                    hist.log(K::Note(format!("drop_waited_ns={waited}")));
                     let fin = writer_tid.map(detsim::thread_finished).unwrap_or(false);
                     hist.log(K::DropHandleEnd { writer_finished: fin });
                 }
@@ -1958,13 +1964,12 @@ pub fn check_c05(plan: &Value, run: &QueueRun, d: &Digest) -> Option<Violation> 
                 return Some(Violation::new("writer_not_terminated", "the writer thread was still alive when the drop of the join handle returned"));
             }
             if jb(plan, "sustained_drop", false) {
-                let clock_of = |seq: u64| run.hist.iter().find(|e| e.seq == seq).map(|e| e.clock).unwrap_or(0);
-                let took = clock_of(x).saturating_sub(clock_of(b));
+                let took = run.hist.iter().find_map(|e| if let K::Note(n) = &e.k { n.strip_prefix("drop_waited_ns=").and_then(|v| v.parse::<u64>().ok()) } else { None }).unwrap_or(0);
                 let bound = ju(plan, "flush_interval_ns", 0) + ju(plan, "shutdown_timeout_ns", 0) + 130 * ju(plan, "next_cost_ns", 0);
                 if took > bound {
                     return Some(Violation::new(
                         "shutdown_unbounded_under_load",
-                        format!("a producer kept the queue non-empty; the drop of the join handle took {took} ns of simulated time, more than flush interval + shutdown timeout + 130 stream writes = {bound} ns"),
+                        format!("a producer kept the queue non-empty; the drop of the join handle waited {took} ns of simulated time for the writer, more than flush interval + shutdown timeout + 130 stream writes = {bound} ns"),
                     ));
                 }
             }
@@ -2093,9 +2098,47 @@ fn gen_c05_sustained_drop(rng: &mut Rng) -> Value {
     })
 }
 
+/// A long backlog (hundreds to thousands of entries behind a gated, slow stream) when the queue is told to stop -
+/// by dropping the join handle, or by forgetting it and dropping the last queue handle. The timeout is generous:
+/// the final drain takes many flush intervals and several thousand entries, and must go through to the end.
+fn gen_c05_long_final_drain(rng: &mut Rng) -> Value {
+    let n = *rng.pick(&[200u64, 900, 4_500, 6_000]) + rng.below(300);
+    let forget = rng.chance(0.5);
+    let next_cost = 1_000u64;
+    let flush_interval = *rng.pick(&[50_000u64, 1_000_000]);
+    let sched = gen_sched(rng, &SchedOpts { est_choices: 200 + n * 6, threads: 2, jump_max_ns: 0, stall_clock_max_ns: 0, max_steps: 2_000_000 });
+    json!({
+        "scenario": "queue_shutdown",
+        "sched": sched,
+        "boxed": rng.chance(0.5),
+        "capacity": n + 64,
+        "flush_interval_ns": flush_interval,
+        "shutdown_timeout_ns": 1_000_000_000_000_000u64,
+        "recorder": rng.chance(0.3),
+        "next_cost_ns": next_cost,
+        "gate": 0,
+        "script": [],
+        "report_res": "O",
+        "flush_fail": [],
+        "producers": [[{"op":"append","n":n}]],
+        "main_ops": [{"op":"wait_next_started","n":1}],
+        // the gate opens only once every entry is queued (producers are joined before `pre_end`)
+        "pre_end": [{"op":"gate_open"}],
+        "end": if forget { "forget" } else { "drop" },
+        "end_before_join": false,
+        "post": [],
+        "settle_ns": 0,
+        "lossy_shutdown": false,
+        "long_final_drain": true,
+    })
+}
+
 pub fn gen_c05(rng: &mut Rng, _tier: Tier) -> Value {
     if rng.chance(0.08) {
         return gen_c05_stalled_drop(rng);
+    }
+    if rng.chance(0.004) {
+        return gen_c05_long_final_drain(rng);
     }
     if rng.chance(0.03) {
         return gen_c05_sustained_drop(rng);
@@ -2227,13 +2270,16 @@ impl Scenario for QueueShutdown {
                 let queued = d.entries.values().filter(|e| e.ret.map(|r| r < b).unwrap_or(false) && e.next_begin.first().map(|n| *n > b).unwrap_or(true)).count() as u64;
                 r.probe("join_handle_dropped_under_sustained_load", (queued > 0) as u64);
             }
+            if jb(plan, "long_final_drain", false) {
+                r.probe("final_drain_of_hundreds_to_thousands", 1);
+            }
             let guards = ja(plan, "producers").iter().flat_map(|p| p.as_array().cloned().unwrap_or_default()).filter(|o| js(o, "op", "") == "guard" && js(o, "how", "drop") != "drop").count() as u64;
             r.probe("append_on_drop_guard_consumed_without_append", guards);
         }
         finish_report(r, out, run, plan, check_c05, true)
     }
     fn probes(&self) -> Vec<&'static str> {
-        vec!["append_racing_with_shutdown", "late_append_after_shutdown", "forget_path_runs", "shutdown_timeout_hit_with_loss", "join_handle_dropped_under_sustained_load", "append_on_drop_guard_consumed_without_append"]
+        vec!["append_racing_with_shutdown", "late_append_after_shutdown", "forget_path_runs", "shutdown_timeout_hit_with_loss", "join_handle_dropped_under_sustained_load", "append_on_drop_guard_consumed_without_append", "final_drain_of_hundreds_to_thousands"]
     }
     fn components(&self) -> Value {
         queue_components()
